@@ -91,6 +91,9 @@ template <typename T> static uint64_t rt_compute(const uint8_t* p, size_t n, uin
   return nop::SipHash::Compute(nop::BlockReader<T>(reinterpret_cast<const T*>(p), n), k0, k1);
 }
 
+// user byte containers whose size() / operator[] use other integer types than std::size_t (a Qt-style int size, a small fixed-capacity buffer with a
+// uint8_t / uint16_t length, a signed-char element type): Compute accepts anything with size() and operator[]
+template <typename S, typename E> struct NarrowBuf { const uint8_t* p; S n; S size() const { return n; } E operator[](S i) const { return (E)p[(size_t)i]; } };
 static void c18_random(uint64_t ncases) {
   const std::string T = "siphash-random";
   for (uint64_t c = 0; c < ncases; c++) {
@@ -116,6 +119,12 @@ static void c18_random(uint64_t ncases) {
     uint64_t g_vc = nop::SipHash::Compute(std::vector<char>(reinterpret_cast<const char*>(h), reinterpret_cast<const char*>(h) + len), k0, k1);
     uint64_t g_vs = nop::SipHash::Compute(std::vector<signed char>(reinterpret_cast<const signed char*>(h), reinterpret_cast<const signed char*>(h) + len), k0, k1);
     uint64_t g_vu = nop::SipHash::Compute(std::vector<uint8_t>(h, h + len), k0, k1);
+    { uint64_t nb[4] = {nop::SipHash::Compute(NarrowBuf<int, char>{h, (int)len}, k0, k1), nop::SipHash::Compute(NarrowBuf<unsigned, uint8_t>{h, (unsigned)len}, k0, k1),
+                        nop::SipHash::Compute(NarrowBuf<uint16_t, signed char>{h, (uint16_t)len}, k0, k1), len < 256 ? nop::SipHash::Compute(NarrowBuf<uint8_t, uint8_t>{h, (uint8_t)len}, k0, k1) : ref};
+      static const char* nn[4] = {"container with int size() and char elements", "container with unsigned size()", "container with uint16_t size() and signed char elements", "container with uint8_t size()"};
+      rep().count("c18_user_containers_with_narrow_size_types", 4);
+      for (int gi = 0; gi < 4; gi++) if (nb[gi] != ref) rep().violation(fmt("oracle-siphash:runtime-container:%s", nn[gi]), fmt("SipHash::Compute(%s) = %016" PRIx64 " but SipHash-2-4 = %016" PRIx64 " (len %zu)", nn[gi], nb[gi], ref, len),
+                                                                         case_desc(T, (int64_t)c, "runtime", J().u("len", len).u("k0", k0).u("k1", k1).s("bytes", hex(h, len, 64)).str())); }
     // a reader object that is re-seated by assignment (and one that is copy-constructed) hashes the bytes it now refers to, with their length
     { static const uint8_t other[13] = {1, 2, 3, 4, 5, 6, 7, 8, 9, 10, 11, 12, 13};
       nop::BlockReader<uint8_t> rd(other, (len % 2) ? sizeof other : 3); rd = nop::BlockReader<uint8_t>(h, len); nop::BlockReader<uint8_t> cp(rd);
@@ -202,6 +211,7 @@ static void c18_names() {
     // selector = SipHash-2-4(method name + NUL, key0 = interface hash (as computed by the library), key1 = interface key1), truncated
     uint64_t sref = refsip::siphash24((const uint8_t*)m.mname, strlen(m.mname) + 1, m.ct_ihash, IK1);
     if (m.bits == 32) sref &= 0xffffffffull;
+    if (m.bits == 32 && (sref == 0 || sref == 1 || sref == 0x7fffffffull || sref == 0x80000000ull || sref == 0xffffffffull)) rep().count("c18_selectors_at_the_edges_of_the_32bit_range");
     if (m.ct_selector != sref) rep().violation("oracle-selector:compile-time!=reference", fmt("selector of %s::%s = %016" PRIx64 " != reference %016" PRIx64, m.iname, m.mname, m.ct_selector, sref), cj);
     if (m.ct_selector_by_index != m.ct_selector) rep().violation("oracle-selector:GetMethodSelector", "GetMethodSelector<Index>() != Method::Selector", cj);
     if (rep().want_sample("method-selector")) rep().sample("method-selector", J().s("interface", std::string(m.iname, m.ilen)).s("method", m.mname).u("bits", m.bits).s("selector", fmt("%" PRIx64, m.ct_selector)).str());
